@@ -282,7 +282,8 @@ Definition mon_step (m : mon) (e : tev) : mon :=
       m_wait m true (a_clk m) call maxev timeout gnd
   | TRet None _ clk =>
       let m := m_wait m false (w_entry m) (w_call m) (w_max m) (w_to m) (w_gnd m) in
-      let m := chk m (clk =? a_clk m) 1502 in
+      let m := chk m (a_clk m <=? clk) 1502 in          (* time may have passed before the interruption *)
+      let m := m_loop m (a_main m) (a_quit m) clk false in
       m_iter m (called m) (expect m) (need_call m) true
   | TRet (Some n) fds clk =>
       let slept := a_clk m <? clk in
